@@ -122,6 +122,9 @@ impl MT204 {
             }
         }
 
+        // Reject anything left after the last field of the type
+        verify_parser_complete(&parser)?;
+
         Ok(MT204 {
             transaction_reference,
             sum_of_amounts,
